@@ -429,6 +429,50 @@ func main() {
 			r.Outcome(k, v)
 		}
 	})
+	// the exported surface: other entry points that reach the same behaviour, on a reduced
+	// declaration set with the full request set, judged by the same reference
+	var vjobs []job
+	for _, d := range variantDecls() {
+		for _, l := range []string{"mapptr", "routes", "serve", "helper"} {
+			if l == "helper" && !helperApplies(d) {
+				continue
+			}
+			vjobs = append(vjobs, job{l, d})
+		}
+	}
+	r.Set("exported_surface_variants", map[string]any{
+		"mapptr":       "UntypedRequestBinder.Bind with a pointer to the map, SetLogger set",
+		"routes":       "Context.RoutesHandler",
+		"serve":        "middleware.Serve",
+		"helper":       "runtime.ReadSingleValue / ReadCollectionValue on runtime.Values of the query, header, PostForm, MultipartForm.Value and on middleware.RouteParams (also RouteParams.Get): plain string scalars and string arrays in csv/ssv/tsv/pipes",
+		"declarations": len(variantDecls()),
+	})
+	enum.Parallel(len(vjobs), r.OutOfTime, func(i int) {
+		j := vjobs[i]
+		p := prepare(j.level, j.d)
+		var evals, nontrivial int64
+		outcomes := map[string]int64{}
+		for _, q := range requests(j.d) {
+			o, ok := p.execute(q)
+			if !ok {
+				continue
+			}
+			evals++
+			e := reference(j.d, q)
+			if e.mustBind() || e.must422() {
+				nontrivial++
+			}
+			outcomes[outcomeLabel(j.level, e, o)]++
+			if cl, what := judge(j.level, j.d, q, e, o); cl != "" {
+				r.Fail(cl, what, Case{Level: j.level, D: j.d, Q: q})
+			}
+		}
+		r.Eval(evals)
+		r.Nontrivial(nontrivial)
+		for k, v := range outcomes {
+			r.Outcome(k, v)
+		}
+	})
 	// pair sweep: two parameters of one operation in two locations, same or different names
 	pairs := pairDecls()
 	var pjobs []pairJob
@@ -477,7 +521,53 @@ func main() {
 		"requests are rendered as HTTP/1.1 text and parsed by net/http.ReadRequest; header field values lose surrounding blanks there (HTTP), every other location is escaped by the renderer and arrives unchanged",
 		"statuses at the map/struct level are derived from the binder's error the way go-openapi/errors.ServeError does (first nested error, codes >= 600 answer 422)")
 	pprof.StopCPUProfile()
-	r.Finish("every declaration of the stated product x every request of the stated presence/text sets, at each level; one evaluation = one Bind call or one request through the handler stack on the real code, compared with the reference; non-trivial = the property text forces the outcome of the case (MUST bind exactly one of the listed values, or MUST be 422) so the comparison can fail both ways; distinct by construction: the enumerators never repeat a (level, declaration, request) triple. The formats registry is a configuration axis (default registry, or the application's own registry with a user-defined format and a user format shadowing a built-in name; the reference then demands the value and Go type the text denotes under that registry). Texts that differ only in zero padding (same value, 3 to 40 characters) must get one decision per declaration and level. Multi-operation sweep (handler level): every ordered pair (thorough: also every ordered triple of the first six) of the colliding declaration alphabet per location as operations of ONE API, rebuilt the stated number of times; every request of the shared request alphabet to every operation, alone and as the second of two (third of three) consecutive requests to different operations on one handler instance, must give exactly the result of a fresh single-operation API of that operation's own declaration, which is itself judged by the reference; each such request is one non-trivial evaluation", true)
+	r.Finish("every declaration of the stated product x every request of the stated presence/text sets, at each level; one evaluation = one Bind call or one request through the handler stack on the real code, compared with the reference; non-trivial = the property text forces the outcome of the case (MUST bind exactly one of the listed values, or MUST be 422) so the comparison can fail both ways; the same declarations x requests are also driven through the other exported entry points (Bind with a map pointer and a logger set, Context.RoutesHandler, middleware.Serve, and the helpers runtime.ReadSingleValue / ReadCollectionValue / RouteParams.Get on the location's values) on a reduced declaration set, judged by the same reference; distinct by construction: the enumerators never repeat a (level, declaration, request) triple. The formats registry is a configuration axis (default registry, or the application's own registry with a user-defined format and a user format shadowing a built-in name; the reference then demands the value and Go type the text denotes under that registry). Texts that differ only in zero padding (same value, 3 to 40 characters) must get one decision per declaration and level. Multi-operation sweep (handler level): every ordered pair (thorough: also every ordered triple of the first six) of the colliding declaration alphabet per location as operations of ONE API, rebuilt the stated number of times; every request of the shared request alphabet to every operation, alone and as the second of two (third of three) consecutive requests to different operations on one handler instance, must give exactly the result of a fresh single-operation API of that operation's own declaration, which is itself judged by the reference; each such request is one non-trivial evaluation", true)
+}
+
+// variantDecls: the reduced declaration set of the exported-surface variants.
+func variantDecls() []Decl {
+	var out []Decl
+	for _, loc := range []string{"path", "query", "header", "formU", "formM"} {
+		name := "pz"
+		if loc == "header" {
+			name = "X-Pz-Val"
+		}
+		base := Decl{Loc: loc, Name: name, Required: loc == "path"}
+		add := func(d Decl) {
+			d.Loc, d.Name = base.Loc, base.Name
+			d.Required = d.Required || base.Required
+			out = append(out, d)
+		}
+		add(Decl{Type: "string"})
+		add(Decl{Type: "string", Default: true, Valid: "len"})
+		add(Decl{Type: "integer", Format: "int32", Valid: "minmax"})
+		add(Decl{Type: "integer", Format: "int8", Required: true})
+		add(Decl{Type: "number", Format: "float", Default: true})
+		add(Decl{Type: "boolean"})
+		add(Decl{Type: "string", Format: "date"})
+		add(Decl{Type: "string", Format: "x-shout", Registry: "own"})
+		for _, cf := range []string{"", "csv", "ssv", "tsv", "pipes"} {
+			add(Decl{Type: "array", ItemType: "string", CF: cf})
+		}
+		add(Decl{Type: "array", ItemType: "integer", ItemFormat: "int32", CF: "pipes", Valid: "items"})
+		if loc != "path" && loc != "header" {
+			add(Decl{Type: "array", ItemType: "string", CF: "multi"})
+			add(Decl{Type: "array", ItemType: "integer", ItemFormat: "int32", CF: "multi", Required: true})
+		}
+	}
+	return out
+}
+
+// helperApplies: the helpers return texts, so they are judged on plain strings
+// and string arrays; multi is read from the values directly, not through them.
+func helperApplies(d Decl) bool {
+	if d.Default || d.Valid != "" || d.Registry != "" {
+		return false
+	}
+	if d.Type == "array" {
+		return d.ItemType == "string" && d.ItemFormat == "" && d.CF != "multi"
+	}
+	return d.Type == "string" && d.Format == ""
 }
 
 // quickHandlerSlice: the declarations that also go through the full handler
